@@ -260,7 +260,7 @@ impl Engine for C09 {
     }
     fn runs(&self, quick: bool) -> u64 {
         if quick {
-            2_000
+            4_000
         } else {
             40_000
         }
@@ -364,7 +364,9 @@ impl Engine for C09 {
                 }
             }
             // all histories of length 3 over a sub-alphabet (whole alphabet when small enough)
-            let cap = if quick { 8 } else { 12 };
+            // quick favours many worlds over deep enumeration per world (leaks need the right
+            // template shape far more often than a long history)
+            let cap = if quick { 5 } else { 12 };
             let mut sub: Vec<usize> = (0..a).collect();
             rng.shuffle(&mut sub);
             sub.truncate(cap);
@@ -388,7 +390,7 @@ impl Engine for C09 {
                 }
             }
             // seeded long histories with re-parse / clone operations and a final sweep
-            let n_long = if quick { 24 } else { 80 };
+            let n_long = if quick { 8 } else { 80 };
             for _ in 0..n_long {
                 let k = 4 + rng.below(3);
                 let mut h = vec![];
@@ -532,7 +534,7 @@ impl Engine for C09 {
     }
 
     fn rule(&self) -> String {
-        "one run = one world (2-3 templates x 2-3 data objects, 0-4 partials, one policy) and its call alphabet {render, render_to, render_to with a sink fault inside the write sequence} per (template, data); all histories of length <= 2 over the whole alphabet and all of length 3 over a sub-alphabet (<= 8 letters quick, <= 12 thorough), each on a fresh shared parser, plus seeded histories of length 4-6 with re-parse/clone operations and a final sweep; each call compared with the same call on a fresh parser. A world is non-trivial when a template uses a stateful construct (cycle, increment/decrement, ifchanged, break/continue, assign, capture, include, render); distinct = distinct (world, policy) hashes among those".into()
+        "one run = one world (2-3 templates x 2-3 data objects, 0-4 partials, one policy) and its call alphabet {render, render_to, render_to with a sink fault inside the write sequence} per (template, data); all histories of length <= 2 over the whole alphabet and all of length 3 over a sub-alphabet (<= 5 letters quick, <= 12 thorough), each on a fresh shared parser, plus seeded histories of length 4-6 with re-parse/clone operations and a final sweep; each call compared with the same call on a fresh parser. A world is non-trivial when a template uses a stateful construct (cycle, increment/decrement, ifchanged, break/continue, assign, capture, include, render); distinct = distinct (world, policy) hashes among those".into()
     }
     fn assumptions(&self) -> Vec<String> {
         vec![
